@@ -38,6 +38,19 @@ def gen_sma(r, tier):
     return ops
 
 
+def gen_slow_first(r, tier):
+    """start-up with a sensor whose first read is slow and fails (or answers late) while later reads are quick: the real
+    initializeSensors, polls straight after it, then silence (seed C08k: the first reading was applied whenever it arrived -
+    over the smoothed value the polls had built in the meantime). Oracle-only; real processes and real time."""
+    ops = []
+    for _ in range(3 if tier == "quick" else 12):
+        first = r.pick(["fail", "fail", "late"])
+        ops += ["#case slow-first",
+                f"sn.initslow first_ms={r.pick([700, 900, 1200])} first={first} firstvalue={r.range(1000, 90000)} "
+                f"value={r.range(20000, 90000)} polls={r.range(1, 8)}"]
+    return ops
+
+
 def is_finite(f):
     return f == f and f not in (float("inf"), float("-inf"))
 
@@ -54,13 +67,21 @@ class C08(Prop):
     assumptions = ["strconv.ParseFloat's verdict on the command output is an input of the model (token pv=), cross-checked against Go on every op",
                    "hull for window 1 and for overflowing differences are recorded known findings (C08-hull-n1, C08-hull-overflow)"]
     streams = [Stream("sensor", gen_sensors, parallel=8, timeout=1800), Stream("converge", gen_converge, parallel=8),
-               Stream("sma", gen_sma, parallel=4)]
+               Stream("sma", gen_sma, parallel=4),
+               Stream("slow-first", gen_slow_first, parallel=4, exact=False, contract=lambda op, a, b: True)]
 
     def oracle(self, name, ops, go):
         out = []
         if name == "sma":
             return out
         for cops, cgo in cases(ops, go):
+            if len(cops) >= 2 and cops[1].startswith("sn.initslow"):
+                g = kv(cgo[1])
+                if "avg1" in g and g.get("avg1") != g.get("avg2"):
+                    o = kv(cops[1])
+                    out.append(viol(f"the smoothed value changed from {bits2f(int(g['avg1'][1:], 16))} to {bits2f(int(g['avg2'][1:], 16))} while nobody polled "
+                                    f"the sensor (its slow first read at start-up, {o.get('first')}, ended in between)", cops, cgo))
+                continue
             if len(cops) >= 2 and cops[1].startswith("sn.init"):
                 for i in range(1, len(cops)):
                     g = kv(cgo[i])
